@@ -1057,6 +1057,11 @@ func (kcp *KCP) Check() uint32 {
 	tm_flush = _itimediff(ts_flush, current)
 
 	for seg := range kcp.snd_buf.ForEach {
+		// a segment that was never transmitted has no retransmission timer yet
+		// (its resendts is still zero, which is not a point on the wrapping clock)
+		if seg.xmit == 0 {
+			continue
+		}
 		diff := _itimediff(seg.resendts, current)
 		if diff <= 0 {
 			return current
